@@ -38,6 +38,19 @@ def real_channel_values(f):
     return out
 
 
+_MM = []
+
+
+def memmap_tmp():
+    if not _MM:
+        import atexit
+        import shutil
+        import tempfile
+        _MM.append(tempfile.mkdtemp(prefix="nptdms_verif_c11_"))
+        atexit.register(shutil.rmtree, _MM[0], True)
+    return _MM[0]
+
+
 def check_file(ctx, model, nptdms, segs, data, stats, cut=None):
     dis, vio = [], []
     r, fe = canon.real_read(data, nptdms)
@@ -51,6 +64,15 @@ def check_file(ctx, model, nptdms, segs, data, stats, cut=None):
                              dict(kind="daqmx", file=data.hex(), encoding=gen_files.to_line(segs))))
         return dis, vio
     got = real_channel_values(fe)
+    # the same file read with memmap_dir (file-backed receivers): identical values
+    mm = memmap_tmp() if (getattr(ctx, "always_memmap", False) or ctx.rnd.random() < 0.5) else None
+    if mm is not None:
+        stats["memmap_reads"] = stats.get("memmap_reads", 0) + 1
+        import io
+        rm = cl.call(lambda: real_channel_values(nptdms.TdmsFile.read(io.BytesIO(data), raw_timestamps=True, memmap_dir=mm)))
+        if rm[0] != "ok" or rm[1] != got:
+            vio.append(Violation("TdmsFile.read(memmap_dir=...) of a DAQmx file %s" % ("raised %s" % rm[2] if rm[0] != "ok" else "gives other scaler data than the read without memmap_dir: %s vs %s" % (
+                str(rm[1])[:120], str(got)[:120])), dict(kind="daqmx-memmap", file=data.hex(), encoding=gen_files.to_line(segs))))
     if cut is None:
         exp = gen_daqmx.expected_values(segs)
         stats["decoded"] += 1
@@ -67,7 +89,7 @@ def check_file(ctx, model, nptdms, segs, data, stats, cut=None):
                 if len(vals) != n:
                     vio.append(Violation("len(channel)=%d but scaler %s of %r has %d values" % (n, k, p, len(vals)), dict(kind="daqmx", file=data.hex(), path=p.hex())))
     # lazy windows and chunk streams vs eager
-    fl, st = cl.open_real(data, nptdms)
+    fl, st = cl.open_real(data, nptdms, **(dict(memmap_dir=mm) if mm is not None else {}))
     for ch in cl.channels_of(fl):
         p = ch.path.encode("utf-8")
         n = len(ch)
@@ -222,6 +244,17 @@ def replay(ctx, path):
         r, _ = canon.real_read(data[:rp["cut"]], nptdms)
         print("replay: cut read -> %s" % (r.get("exc") or "ok (compare with the uncut read by hand)"))
         return 0 if r.get("ok") else 1
+    if rp.get("kind", "").startswith("daqmx-"):
+        ctx.always_memmap = rp["kind"] == "daqmx-memmap"
+        import gen_daqmx as gd
+        old = gd.expected_values
+        gd.expected_values = lambda segs: {}
+        try:
+            _, v = check_file(ctx, None, nptdms, [], data, dict(files=0, decoded=0, windows=0, streams=0, cuts=0))
+        finally:
+            gd.expected_values = old
+        print("replay: %s" % ([x.what[:200] for x in v[:3]] or "lazy / eager / memmap reads agree on this file"))
+        return 1 if v else 0
     r, _ = canon.real_read(data, nptdms)
     print("replay: read -> %s" % (r.get("exc") or "ok"))
     return 0 if r.get("ok") else 1
@@ -250,6 +283,7 @@ def corpus(ctx, entry):
     import gen_daqmx as gd
     old = gd.expected_values
     gd.expected_values = lambda segs: {}
+    ctx.always_memmap = rp.get("kind") == "daqmx-memmap"
     try:
         return check_file(ctx, model, nptdms, [], data, stats)
     finally:
